@@ -81,7 +81,7 @@ def rrule(r):
 
 class Gen:
     def __init__(self, r, variant="default", auth=False, nconn=None, ops=None, faults=False, ws_share=0.35, timers=True,
-                 malformed=0.04, batches=0.08, allow_close=True, single=False):
+                 malformed=0.04, batches=0.08, allow_close=True, single=False, quiesce_close=False, close_rate=0.04):
         self.r = r
         self.variant = variant
         self.auth = auth
@@ -94,6 +94,8 @@ class Gen:
         self.malformed = malformed
         self.batches = batches
         self.allow_close = allow_close
+        self.quiesce_close = quiesce_close
+        self.close_rate = close_rate
         self.single = single        # one request per message and per epoll batch (table-refusal oracles are per operation)
         self.next_conn = 0
         self.live = []          # live connection numbers
@@ -128,7 +130,11 @@ class Gen:
         return c
 
     def close(self, c):
+        if self.quiesce_close:
+            self.steps.append(("quiesce",))
         self.steps.append((self.r.choice(["eof", "eof", "rst", "err"]), c))
+        if self.quiesce_close:
+            self.steps.append(("quiesce",))
         self.live.remove(c)
         for p in [p for p, o in self.owned.items() if o == c]:
             del self.owned[p]
@@ -288,7 +294,7 @@ class Gen:
                 self.steps.append(("msg", c, [self.request(c) for _ in range(n)]))
             elif x < 0.30 and self.owner_reply():
                 pass
-            elif x < 0.34 and self.allow_close and len(self.live) > 1:
+            elif x < 0.30 + self.close_rate and self.allow_close and len(self.live) > 1:
                 self.close(c)
             elif x < 0.38 and self.next_conn < 9:
                 self.connect()
